@@ -63,43 +63,15 @@ def _snapshot(d, case):
     return s
 
 
-def _translate(log, dbdir, notes):
-    """recorded calls -> atomic steps on names relative to the database directory"""
-    steps = []
-    opened = set()
+def _record(base, dbdir, fn, notes):
+    """run fn under the recorder -> (result, atomic steps on names relative to the database directory)"""
     prefix = dbdir + os.sep
     rel = lambda p: p[len(prefix):] if p.startswith(prefix) else "../" + os.path.basename(p)
-    for ev in log:
-        if ev[0] == "open":
-            fl = ev[2]
-            if fl is None or (fl & (os.O_WRONLY | os.O_RDWR)) == 0:
-                continue
-            n = rel(ev[1])
-            steps.append(("x" if fl & os.O_EXCL else "c", n))
-            opened.add(n)
-        elif ev[0] == "rename":
-            a, b = rel(ev[1]), rel(ev[2])
-            if ev[3] is not None and a in opened and not any(s[0] == "a" and s[1] == a for s in steps):
-                steps += [("a", a, byte) for byte in ev[3]]
-            steps.append(("r", a, b))
-        elif ev[0] == "os.remove":
-            steps.append(("u", rel(ev[1])))
-        elif ev[0] == "hook-error":
-            notes.append("hook-error")
-        else:
-            notes.append("unexpected-call:" + ev[0] + ":" + rel(ev[1]))
-    return steps
-
-
-def _record(base, dbdir, fn, notes):
-    log = []
-    rec._install()
-    rec._HOOK.update(on=True, dir=base + os.sep, log=log)
-    try:
-        out = fn()
-    finally:
-        rec._HOOK["on"] = False
-    return out, _translate(log, dbdir, notes)
+    out, err, log = rec.record(base, fn)
+    steps = rec.translate(log, rel, notes)
+    if err is not None:
+        raise err
+    return out, steps
 
 
 def _items(d):
